@@ -30,7 +30,7 @@
 #define NMAX 6
 
 typedef struct kase {
-    char kind[12], from[8], via[8], to[8], z0[8];
+    char kind[12], from[8], via[8], to[8], z0[8], net[16];
     int n, alias;
 } kase_t;
 
@@ -61,8 +61,9 @@ static int load_cases(const char *path)
 	    return -1;
 	}
 	k = &cases[ncases];
-	if (sscanf(line, "case\t%11s\t%7s\t%7s\t%7s\t%d\t%d\t%7s", k->kind,
-		    k->from, k->via, k->to, &k->n, &k->alias, k->z0) != 7) {
+	if (sscanf(line, "case\t%11s\t%7s\t%7s\t%7s\t%d\t%d\t%7s\t%15s",
+		    k->kind, k->from, k->via, k->to, &k->n, &k->alias, k->z0,
+		    k->net) != 8) {
 	    fprintf(stderr, "bad case line: %s", line);
 	    return -1;
 	}
@@ -74,8 +75,8 @@ static int load_cases(const char *path)
 
 static void case_key(const kase_t *k, char *buf, size_t len)
 {
-    snprintf(buf, len, "%s:%s:%s:%s:%d:%d:%s", k->kind, k->from, k->via,
-	    k->to, k->n, k->alias, k->z0);
+    snprintf(buf, len, "%s:%s:%s:%s:%d:%d:%s:%s", k->kind, k->from, k->via,
+	    k->to, k->n, k->alias, k->z0, k->net);
 }
 
 static uint64_t hash_str(const char *s)
@@ -239,7 +240,9 @@ static void run_draw(const kase_t *k, vt_rng_t *r, verdict_t *v)
     const rc_rel_t *rs = rc_relation("S", n);
     const rc_rel_t *rin = rc_relation(k->from, n);
     int nport = strcmp(k->kind, "convn") == 0 || strcmp(k->kind, "zinn") == 0
-	|| strcmp(k->kind, "roundn") == 0;
+	|| strcmp(k->kind, "roundn") == 0 || strcmp(k->kind, "sconvn") == 0
+	|| strcmp(k->kind, "szinn") == 0;
+    int structured = strcmp(k->net, "-") != 0;
     int ok = 0;
 
     v->decided = 0;
@@ -254,6 +257,26 @@ static void run_draw(const kase_t *k, vt_rng_t *r, verdict_t *v)
     for (int tries = 0; tries < 50 && !ok; ++tries) {
 	draw_z0(r, k->z0, n, z0);
 	draw_drive(r, n, drive);
+	if (structured) {
+	    /* a network for which some OTHER representation does not exist:
+	     * its matrix of the input type comes from its constraints */
+	    const rc_net_t *net = rc_network(k->net, n);
+	    double complex e[8];
+
+	    if (net == NULL) {
+		fprintf(stderr, "no network %s n=%d\n", k->net, n);
+		exit(3);
+	    }
+	    for (int i = 0; i < net->nelem && i < 8; ++i) {
+		double complex zel = 5.0 + 145.0 * vt_unit(r) +
+		    I * (160.0 * vt_unit(r) - 80.0);
+
+		e[i] = net->ekind[i] == 'y' ? 1.0 / zel : zel;
+	    }
+	    if (rc_matrix_of_network(net, e, rin, z0, min) <= COND_IN)
+		ok = 1;
+	    continue;
+	}
 	for (int i = 0; i < n * n; ++i)
 	    s[i] = cgauss(r, 0.45);
 	if (strcmp(k->from, "S") == 0) {
@@ -266,7 +289,8 @@ static void run_draw(const kase_t *k, vt_rng_t *r, verdict_t *v)
     if (!ok)
 	return;
 
-    if (strcmp(k->kind, "conv2") == 0 || strcmp(k->kind, "convn") == 0) {
+    if (strcmp(k->kind, "conv2") == 0 || strcmp(k->kind, "convn") == 0 ||
+	    strcmp(k->kind, "sconv2") == 0 || strcmp(k->kind, "sconvn") == 0) {
 	const cr_entry_t *e = find_fn(k->from, k->to, nport);
 
 	apply(e, min, o1, z0, n, k->alias);
@@ -277,7 +301,8 @@ static void run_draw(const kase_t *k, vt_rng_t *r, verdict_t *v)
 	    note(v, max_rel_diff(n * n, o1, o2), TOL_AGREE, "alias");
 	}
 	v->decided = 1;
-    } else if (strcmp(k->kind, "zin2") == 0 || strcmp(k->kind, "zinn") == 0) {
+    } else if (strcmp(k->kind, "zin2") == 0 || strcmp(k->kind, "zinn") == 0 ||
+	    strcmp(k->kind, "szin2") == 0 || strcmp(k->kind, "szinn") == 0) {
 	const cr_entry_t *e = find_fn(k->from, "ZIN", nport);
 
 	apply(e, min, o1, z0, n, k->alias);
@@ -368,7 +393,7 @@ static void run_draw(const kase_t *k, vt_rng_t *r, verdict_t *v)
 
 static void run_case(const kase_t *k, uint64_t seed, int draws)
 {
-    char key[96];
+    char key[128];
     int decided = 0, failed = 0, first_bad = -1;
     double worst = 0.0;
     const char *what = "-";
@@ -395,10 +420,11 @@ static void run_case(const kase_t *k, uint64_t seed, int draws)
     }
     vt_put("{\"e\":\"Case\",\"case\":\"%llu:%d:%s\",\"kind\":\"%s\","
 	    "\"from\":\"%s\",\"via\":\"%s\",\"to\":\"%s\",\"n\":%d,"
-	    "\"alias\":%d,\"z0\":\"%s\",\"draws\":%d,\"decided\":%d,"
+	    "\"alias\":%d,\"z0\":\"%s\",\"net\":\"%s\",\"draws\":%d,\"decided\":%d,"
 	    "\"failed\":%d,\"firstBad\":%d,\"what\":\"%s\",\"lg\":%d}",
 	    (unsigned long long)seed, draws, key, k->kind, k->from, k->via,
-	    k->to, k->n, k->alias, k->z0, draws, decided, failed, first_bad,
+	    k->to, k->n, k->alias, k->z0, k->net, draws, decided, failed,
+	    first_bad,
 	    what, worst > 0.0 && isfinite(worst) ?
 		(int)ceil(log10(worst)) : (worst == 0.0 ? -99 : 99));
     vt_end_line();
@@ -428,7 +454,7 @@ int main(int argc, char **argv)
     draws = atoi(argv[3]);
     if (strcmp(argv[4], "key") == 0) {
 	for (int i = 0; i < ncases; ++i) {
-	    char key[96];
+	    char key[128];
 
 	    case_key(&cases[i], key, sizeof(key));
 	    if (strcmp(key, argv[5]) == 0) {
